@@ -4,6 +4,7 @@ open Lean DoitModel.Opt
 namespace Driver.Opt
 /-! requests with `"model":"opt"`:
 
+  `ini_layers` / `glob_layers`: [[[key,CFG]..]..] the section in extra_config, pyproject.toml, doit.cfg (merged per key)
   common fields  `spec`: [{"name","type":"bool|int|str|list","default":VAL,"short":"x"|"","long","inverse","choices":[VAL],"env_var":str|null}]
                  `env`: [[name,value]]   `ini`, `glob`: [[key, {"raw":str} | {"val":VAL}]] (command/task section, GLOBAL section)   `dodo`: [[key, VAL]]   `argv`: [str]
                  VAL = null | bool | int | str | [str]
@@ -72,6 +73,17 @@ def iniOf (j : Json) (field : String) : Option (List (Str × CfgVal)) :=
     | [k, v] => (cfgOf v).map fun c => (s2l (asStr k), c)
     | _ => none
 
+/-- `field` (one section) or, when present, `field ++ "_layers"`: the same section in extra_config / pyproject.toml /
+    doit.cfg, merged per key -/
+def layeredOf (j : Json) (field : String) : Option (List (Str × CfgVal)) :=
+  if jhas j (field ++ "_layers") then
+    ((jarr j (field ++ "_layers")).mapM fun layer =>
+      (asArr layer).mapM fun kv =>
+        match asArr kv with
+        | [k, v] => (cfgOf v).map fun c => (s2l (asStr k), c)
+        | _ => none).map mergeLayers
+  else iniOf j field
+
 def dodoOf (j : Json) : Option (List (Str × Val)) :=
   (jarr j "dodo").mapM fun kv =>
     match asArr kv with
@@ -122,7 +134,7 @@ def exceptAll (spec : List Opt) (f : Opt → Except Err Val) : Option (List (Str
   spec.mapM fun o => match f o with | .ok v => some (o.name, v) | .error _ => none
 
 def handle (j : Json) : Json :=
-  match (jarr j "spec").mapM optOf, iniOf j "ini", iniOf j "glob", dodoOf j with
+  match (jarr j "spec").mapM optOf, layeredOf j "ini", layeredOf j "glob", dodoOf j with
   | some spec, some sec, some glob, some dodo =>
     let ini := mergeCfg glob sec
     let env := envOfJson j
